@@ -610,3 +610,60 @@ def c06(ctx):
                  {"VERIF_C06_MERGES": 300 if quick else 6000}, design, rule, "newest copy wins",
                  tags_of=lambda head, evs, line, msg: {"msg": msg, "rr": (evs[-1] if evs else {}).get("rr", False)})
     return rc
+
+
+# ------------------------------------------------------------------ rebalancing and durability
+def ledger_tags(head, evs, line, msg):
+    e = evs[-1] if evs else {}
+    # what happened to the key just before
+    k = e.get("k")
+    last = None
+    for x in evs[:-1]:
+        if x.get("t") == "op" and x.get("k") == k:
+            last = x
+    return {"msg": msg.split(" (")[0], "phase": e.get("phase", ""), "last_op": (last or {}).get("op", ""), "last_op_phase": (last or {}).get("phase", "")}
+
+
+def ledger_run(ctx, test, tracefile, summary, env, design, rule, what):
+    for m, c, kw in design:
+        vlib.design_check(ctx, m, c, **kw)
+    out = ctx.dir("drv")
+    e = {"VERIF_OUT": out}
+    e.update(env)
+    rc, o = vlib.go_test(ctx, "reb", test, env=e, timeout=3000)
+    if crash_or_fail(ctx, rc, o, what):
+        return vlib.finish(ctx, {"evaluations": 0, "distinct_nontrivial": 0, "rule": rule, "samples": ["crash"]})
+    summ = json.load(open(os.path.join(out, summary)))
+    accepted, failures = vlib.validate_chunks(ctx, "LedgerTrace", "LedgerTrace.cfg", os.path.join(out, tracefile), consts={}, name=ctx.prop.lower())
+    ctx.traces = accepted
+    for seq_lines, line, msg in failures:
+        head = json.loads(seq_lines[0])
+        evs = [json.loads(l) for l in seq_lines[1:line]]
+        tags = ledger_tags(head, evs, line, msg)
+        steps = [x.get("what") for x in evs if x.get("t") == "step"]
+        key = (evs[-1] if evs else {}).get("k")
+        hist = [x for x in evs if x.get("k") == key and x.get("t") in ("op", "forget", "copies", "read")][-40:]
+        vlib.report_failure(ctx, "%s: %s [%s; steps %s]" % (what, msg, head.get("cfg"), steps[-6:]), tags,
+                            {"reset": head, "steps": steps, "key_history": hist, "failing_event": evs[-1] if evs else {},
+                             "trace": [l.rstrip("\n") for l in seq_lines[:line]][-3000:]})
+    cov = {"evaluations": summ["evaluations"], "scenarios": summ["scenarios"], "distinct_nontrivial": summ["distinct_nontrivial"], "rule": rule,
+           "samples": summ.get("samples") or ["none"], "configs": (summ.get("configs") or [])[:40], "not_stabilised": summ.get("not_stabilised", 0),
+           "notes": summ.get("notes") or [], "exhaustive": False}
+    if summ.get("not_stabilised", 0) > max(2, summ["scenarios"] // 4):
+        vlib.write_evidence(ctx, cov)
+        raise Inconclusive("too many scenarios did not stabilise: %s" % summ.get("notes"))
+    return vlib.finish(ctx, cov)
+
+
+@register("C03")
+def c03(ctx):
+    quick = ctx.tier == "quick"
+    ctx.assumptions += ["operations are issued only while every live member reports the same routing table (the statement places them between the steps of the hand-over, not inside a push)",
+                        "across a leave a key stays asserted only if its newest version was on R distinct live members",
+                        "the balancer and the routing push are driven by the harness (one table per fragment moves per run, as in production)"]
+    rule = ("seeded scenarios: start 1-3 members, R in {1,2}, single- or multi-table fragments (table 512 B); 1-3 membership events (joins; leaves/abrupt stops for R=2 once "
+            "N > R); after each event: reads from every member and Put/Delete operations through random members after the push but before any table moved, after each of two "
+            "single-table balancer runs, at stabilisation (with white-box copy counts) and after it; non-trivial = an operation was issued while a partition had a previous "
+            "owner holding data")
+    design = [("Rebalance", "Rebalance_quick.cfg" if quick else "Rebalance_thorough.cfg", {"timeout": 2400})]
+    return ledger_run(ctx, "TestC03", "c03.ndjson", "c03.summary.json", {"VERIF_SCENARIOS": 12 if quick else 300}, design, rule, "rebalancing")
